@@ -8,7 +8,7 @@ git -C /repo worktree remove --force "$wt" 2>/dev/null
 git -C /repo worktree add -q --detach "$wt" HEAD || exit 9
 trap 'git -C /repo worktree remove --force "$wt" 2>/dev/null' EXIT
 cd "$wt"
-run_demo() { ( cd "$demo" && timeout 900 bash ./run.sh "$wt" >"/tmp/seed/$id.demo.$1.log" 2>&1 ); echo $?; }
+run_demo() { ( cd "$demo" && TREE="$wt" WORKTREE="$wt" timeout 900 bash ./run.sh "$wt" >"/tmp/seed/$id.demo.$1.log" 2>&1 ); echo $?; }
 without=$(run_demo without)
 git apply "$patch" || { echo "$id: PATCH DOES NOT APPLY"; exit 1; }
 b1=$( (go build ./... && go build -tags verif ./...) >/dev/null 2>&1; echo $?)
